@@ -466,6 +466,22 @@ fn bits_until_alignment(
         span,
         &util::BigInt::new(alignment, None))?;
 
+    // The remainder has the sign of the address: below zero,
+    // count the excess from the previous multiple instead
+    let excess_bits_bigint = {
+        if excess_bits_bigint.sign() < 0
+        {
+            excess_bits_bigint.checked_add(
+                report,
+                span,
+                &util::BigInt::new(alignment, None))?
+        }
+        else
+        {
+            excess_bits_bigint
+        }
+    };
+
     let excess_bits = excess_bits_bigint.checked_into::<usize>(
         report,
         span)?;
